@@ -706,6 +706,14 @@ def class_tree(op, pool_ids):
     return 'UNKNOWN:' + n
 
 
+def merged_tree(tree):
+    """no Left(Right)ScalarMult applied directly to a Left(Right)ScalarMult in the REAL class tree"""
+    import re
+    return not re.search(r'(?:Operator|Functional)LeftScalarMult\((?:Operator|Functional)LeftScalarMult\(|'
+                         r'(?:Operator|Functional)RightScalarMult\((?:Operator|Functional)RightScalarMult\(',
+                         tree or '')
+
+
 def skeleton(tree, pool):
     """class tree with leaves replaced by their kind and numbers by a class"""
     import re
@@ -1643,6 +1651,9 @@ def process(ctx, cases, pool, spaces, pool_ids, count=True):
                     'dom/ran/lin/fn {} {} {} {}'.format(f['dom'], f['ran'], f['lin'], f['fn']))
             elif f['ty'] != mty:
                 ctx.disagree(desc, 'type ' + mty, 'typeOf ' + f['ty'])
+            elif f.get('nf') != str(int(merged_tree(real['tree']))):
+                ctx.disagree(desc, 'merged normal form of the real class tree: {}'.format(
+                    merged_tree(real['tree'])), 'Impl.merged ' + str(f.get('nf')))
             elif f['linof'] != str(int(lin_expected(c['ast'], pool))):
                 ctx.disagree(desc, 'documented-rule flag {}'.format(lin_expected(c['ast'], pool)),
                              'linOf ' + f['linof'])
